@@ -34,7 +34,7 @@ def run(ck):
         loads = [(tuple(c["target"]), c["kind"], sc.unhex(c["stream_hex"])) for c in (rp.get("cases") or [rp])]
     else:
         # 1. valid serialisations from the real library
-        objs = sc.gen_objects(ck, 12 if ck.thorough else 3)
+        objs = sc.gen_objects(ck, 5 if ck.thorough else 3)
         objs = [o for o in objs if o[3] > 0 or o[0] in ("H", "MAT")] + [("MEP", 0, 5, 0), ("POPGA", 0, 6, 0)]
         hout, crashes = pc.run_harness_resilient(harness, ["GEN %s %d %d %d" % o for o in objs])
         loads = []
